@@ -75,6 +75,29 @@ def judgeSources (fields : List String) : Option String :=
   | [] => none
   | f :: r => if r.all (· == f) then none else some s!"C09 sources disagree: {String.intercalate " | " fields}"
 
+mutual
+/-- every string and object key of a value is well-formed UTF-8 -/
+def allUtf8 : JV → Bool
+  | .str s => Spec.Utf8.validUtf8 s
+  | .arr xs => allUtf8List xs
+  | .obj ms => allUtf8Members ms
+  | _ => true
+def allUtf8List : List JV → Bool
+  | [] => true
+  | x :: xs => allUtf8 x && allUtf8List xs
+def allUtf8Members : List (Bytes × JV) → Bool
+  | [] => true
+  | (k, x) :: ms => Spec.Utf8.validUtf8 k && allUtf8 x && allUtf8Members ms
+end
+
+/-- C14: a returned value never contains a String that is not valid UTF-8 -/
+def judgeUtf8 (srcName : String) (impl : String) : Option String :=
+  if impl.startsWith "V" then
+    match decodeJV (impl.drop 1).toString with
+    | some v => if allUtf8 v then none else some s!"C14 {srcName}: the returned Value contains a String that is not valid UTF-8"
+    | none => some s!"C14 {srcName}: undecodable value"
+  else none
+
 def firstSome : List (Option String) → Option String
   | [] => none
   | some x :: _ => some x
@@ -91,7 +114,10 @@ def parseAll (tgt : Tgt) : Handler := fun args impl =>
         | [s, sl, rd] =>
           let pos := [judgePos "str" bs s, judgePos "slice" bs sl, judgePos "reader" bs rd, judgeSources [s, sl, rd]]
           if tgt = .value then
-            ([judgeValue cfg "str" false bs s, judgeValue cfg "slice" true bs sl, judgeValue cfg "reader" true bs rd] ++ pos).filterMap id
+            let vs := [judgeValue cfg "str" false bs s, judgeValue cfg "slice" true bs sl, judgeValue cfg "reader" true bs rd].filterMap id
+            -- a single string literal: the same verdicts are also C05's (decode side)
+            let c05 := if (Spec.Rec.skipWs bs).head? == some 0x22 then vs.map fun m => "C05 string literal: " ++ m else []
+            vs ++ c05 ++ pos.filterMap id ++ [judgeUtf8 "str" s, judgeUtf8 "slice" sl, judgeUtf8 "reader" rd].filterMap id
           else ([judgeIgnored "str" bs s, judgeIgnored "slice" bs sl, judgeIgnored "reader" bs rd] ++ pos).filterMap id
         | _ => ["malformed observation"]
       { model := runAll cfg tgt bs, specs := specs }
@@ -121,5 +147,29 @@ def big : Handler := fun args impl =>
     { model := e, specs := (if (impl.splitOn "PANIC").length > 1 then ["C14 panic on a pathological input"] else []) }
   | _ => bad "arity"
 
-def handlers : List (String × Handler) := [("pv", parseAll .value), ("pi", parseAll .ignored), ("big", big)]
+/-- `tdepth <cfg> <levels> <mix>`: typed target made of arrays / enum wrappers nested `levels` deep:
+    accepted iff at most 127 containers are open at once, else the recursion-limit error -/
+def tdepth : Handler := fun args impl =>
+  match args with
+  | [_, ls, _] =>
+    match ls.toNat? with
+    | some l =>
+      let e := if l ≤ 127 then "ok" else "err:" ++ hexOfBytes (Gen.message .RecursionLimitExceeded)
+      { model := e, specs := if impl == e then [] else [s!"C14 typed target nested {l} deep: got {impl}, expected {e}"] }
+    | none => bad "levels"
+  | _ => bad "arity"
+
+/-- `udepth <cfg> <limited|direct|stream> <depth>` (unbounded_depth): with the limit disabled deeper documents parse -/
+def udepth : Handler := fun args impl =>
+  match args with
+  | [_, mode, ds] =>
+    match ds.toNat? with
+    | some d =>
+      let e := if mode == "limited" && d > 127 then "err:syntax" else "ok"
+      { model := e, specs := if impl == e then [] else [s!"C14 unbounded_depth ({mode}) at depth {d}: got {impl}, expected {e}"] }
+    | none => bad "depth"
+  | _ => bad "arity"
+
+def handlers : List (String × Handler) :=
+  [("pv", parseAll .value), ("pi", parseAll .ignored), ("big", big), ("tdepth", tdepth), ("udepth", udepth)]
 end SJ.Drv.C01
